@@ -5,7 +5,11 @@ different iteration orders.  Everything derives from the `random.Random` passed 
 Features (counted in `TGen.hit`): tuple unpacking, branch stores in if/elif/else, nested loops (+else, filter, recursive,
 loop vars), imports / from-imports, macros reading caller/varargs/kwargs, call blocks, many filters and tests, namespaces,
 blocks (scoped, required, super, self), with, filter blocks, includes, set blocks, trans blocks with several variables
-(i18n environments only), do / break / continue (extension environments only).
+(i18n environments only), do / break / continue (extension environments only); and `distinct_stmt`: every construct whose
+parts are visited in some order (call blocks with parameters and defaults, macros with defaults, for with filter / else /
+recursive, with, filter blocks, set blocks with filters, if / elif / else, assignments, calls with * and **, slices, dict /
+list / tuple literals, includes, imports, conditional expressions, scoped blocks in loops, trans blocks) with a DISTINCT
+fresh free name in each part, so that the order of the emitted `resolve` lines pins the order of the visit.
 """
 from __future__ import annotations
 
@@ -17,6 +21,7 @@ FILTERS = ["upper", "lower", "trim", "e", "escape", "string", "list", "length", 
 FILTERS_ARG = ["default('x')", "join(', ')", "replace('a', 'b')", "truncate(5)", "center(9)", "indent(2)", "batch(2)",
                "attr('x')", "map('upper')", "select('odd')", "reject('none')", "selectattr('x')", "groupby('x')",
                "dictsort", "format(1)", "wordwrap(10)", "slice(2)"]
+SYLL = ["ba", "ko", "zu", "mi", "te", "ra", "lo", "vy", "xe", "qi", "du", "fa", "gon", "hep", "jal", "nor", "pim", "sut", "wex", "yab"]
 # filters whose result for a constant input is a generator / iterator / bound method (measured: every built-in filter that is
 # not context-dependent, applied to the literals below, result checked with compiler.has_safe_repr)
 LAZY_FILTERS = {"items", "batch", "slice", "attr", "unique", "reverse"}
@@ -24,6 +29,20 @@ LAZY_FILTERS = {"items", "batch", "slice", "attr", "unique", "reverse"}
 ADDRESS_TEMPLATES = ["{{ [1, 2]|batch(2)|string }}", "{{ {'k': 1}|items|string }}", "{{ [1, 2, 3]|slice(2)|upper }}",
                      "{{ [1]|batch(1) ~ 'x' }}", "{{ 'a'.upper|string }}", "{{ 'a'|attr('upper')|string }}",
                      "{% set v = (1, 2)|batch(1)|string %}{{ v }}", "{{ [1, 1]|unique|string }}", "{{ [1, 2]|reverse|title }}"]
+# fixed shapes: each part of each construct reads its own free name (see TGen.distinct_stmt for the random version)
+DISTINCT_PART_TEMPLATES = [
+    "{% call(item=fallback) m() %}{{ item }}{{ suffix }}{% endcall %}",
+    "{% call(p=da, q=db) target(arg1, k=arg2) %}{{ p }}{{ bodya }}{{ q }}{{ bodyb }}{% endcall %}",
+    "{% macro mm(p=da, q=db|default(dc)) %}{{ bodya }}{{ p }}{{ bodyb }}{% endmacro %}{{ mm(calla) }}",
+    "{% for ta, tb in itera|default(iterb) if testa and testb recursive %}{{ bodya }}{{ loop(bodyb) }}{% else %}{{ elsea }}{{ elseb }}{% endfor %}",
+    "{% with wa=va ~ vb, wb=vc, wc=vd %}{{ bodya }}{{ wa }}{{ bodyb }}{% endwith %}",
+    "{% filter replace(fa, fb)|default(fc, boolean=fd) %}{{ bodya }}{{ bodyb }}{% endfilter %}",
+    "{% set sb|replace(fa, fb)|default(fc) %}{{ bodya }}{{ bodyb }}{% endset %}{{ sb }}",
+    "{% if ta and tb %}{{ ba }}{% elif tc is sameas(td) %}{{ bb }}{% elif te %}{{ bc }}{% else %}{{ bd }}{% endif %}",
+    "{{ fn(pa, pb, k=ka, j=kb, *sa, **sb)|default(da, db) }}{{ xa[la:lb:lc] ~ {ka2: va2, kb2: vb2}[kc2] }}",
+    "{% for x in seq %}{% block inner scoped %}{{ ba }}{{ x }}{{ bb }}{% endblock %}{% endfor %}",
+    "{% include [ia, ib] ignore missing %}{% import ic as id %}{% from ie import a as alias %}{{ ca if cb else cc }}",
+]
 TESTS = ["defined", "undefined", "none", "odd", "even", "string", "number", "mapping", "iterable", "sequence", "callable",
          "lower", "upper", "true", "false", "boolean", "integer", "float", "filter", "test", "sameas(1)", "divisibleby(2)",
          "eq(1)", "ne(2)", "lt(3)", "gt(0)", "in([1])", "escaped"]
@@ -93,6 +112,80 @@ class TGen:
 
     def name(self):
         return self.r.choice(NAMES)
+
+    def fresh(self):
+        """a free name that occurs nowhere else in the template: wherever it is read first decides its place in the frame's
+        `loads`, hence the position of its `l_N_x = resolve('x')` line in the generated source"""
+        self.nfresh = getattr(self, "nfresh", 0) + 1
+        return "%s%s%d" % (self.r.choice(SYLL), self.r.choice(SYLL), self.nfresh)
+
+    def distinct_stmt(self, d):
+        """a construct whose sub-parts (target / args / defaults / iter / test / body / else / filter arguments ...) are reached
+        through iter_child_nodes / iter_fields or visited one after the other by the symbol visitor, each part reading its OWN
+        fresh free names: any change in the order of the visit reorders the emitted resolve lines"""
+        r, F = self.r, self.fresh
+        kinds = ["call", "call", "macro", "for", "with", "filterblock", "setblock", "if", "assign", "callexpr", "getitem",
+                 "include", "condexpr", "scopedblock"]
+        if self.i18n:
+            kinds += ["trans", "trans"]
+        k = r.choice(kinds)
+        self.h("distinct:" + k)
+        inner = self.distinct_stmt(d - 1) if d > 0 and r.random() < 0.4 else ""
+        if k == "call":
+            ps = ["p%d" % i for i in range(r.randrange(1, 4))]
+            return "{%% call(%s) %s(%s, k=%s) %%}{{ %s }}{{ %s }}%s{{ %s }}{%% endcall %%}" % (
+                ", ".join("%s=%s" % (p, F()) for p in ps), F(), F(), F(), ps[0], F(), inner, F())
+        if k == "macro":
+            self.nmacro += 1
+            ps = ["p%d" % i for i in range(r.randrange(1, 4))]
+            return "{%% macro dm%d(%s) %%}{{ %s }}{{ %s }}%s{{ %s }}{%% endmacro %%}{{ dm%d(%s) }}" % (
+                self.nmacro, ", ".join("%s=%s|default(%s)" % (p, F(), F()) for p in ps), F(), ps[-1], inner, F(), self.nmacro, F())
+        if k == "for":
+            t1, t2 = F(), F()
+            e = "{%% for %s, %s in %s|default(%s)" % (t1, t2, F(), F())
+            if r.random() < 0.7:
+                e += " if %s and %s is defined" % (F(), t1)
+            if r.random() < 0.3:
+                e += " recursive"
+            e += " %%}{{ %s }}{{ %s }}%s{{ loop.index if %s else %s }}" % (F(), t2, inner, F(), F())
+            if r.random() < 0.7:
+                e += "{%% else %%}{{ %s }}{{ %s }}" % (F(), F())
+            return e + "{% endfor %}"
+        if k == "with":
+            ws = ["w%d" % i for i in range(r.randrange(2, 5))]
+            return "{%% with %s %%}{{ %s }}%s{{ %s }}{%% endwith %%}" % (
+                ", ".join("%s=%s ~ %s" % (w, F(), F()) for w in ws), F(), inner, ws[0])
+        if k == "filterblock":
+            return "{%% filter replace(%s, %s)|default(%s, boolean=%s)|center(%s) %%}{{ %s }}%s{{ %s }}{%% endfilter %%}" % (
+                F(), F(), F(), F(), F(), F(), inner, F())
+        if k == "setblock":
+            return "{%% set sb%d|replace(%s, %s)|default(%s) %%}{{ %s }}%s{{ %s }}{%% endset %%}" % (
+                r.randrange(9), F(), F(), F(), F(), inner, F())
+        if k == "if":
+            return "{%% if %s and %s %%}{{ %s }}%s{%% elif %s is sameas(%s) %%}{{ %s }}{%% elif %s %%}{{ %s }}{%% else %%}{{ %s }}{%% endif %%}" % (
+                F(), F(), F(), inner, F(), F(), F(), F(), F(), F())
+        if k == "assign":
+            return "{%% set %s, %s = %s, %s %%}{%% set %s.attr = %s[%s] %%}" % (F(), F(), F(), F(), F(), F(), F())
+        if k == "callexpr":
+            return "{{ %s(%s, %s, k=%s, j=%s, *%s, **%s)|default(%s, %s) }}" % (F(), F(), F(), F(), F(), F(), F(), F(), F())
+        if k == "getitem":
+            return "{{ %s[%s:%s:%s] ~ {%s: %s, %s: %s}[%s] ~ [%s, %s] ~ (%s, %s) }}" % tuple(F() for _ in range(13))
+        if k == "include":
+            return r.choice(["{%% include [%s, %s] ignore missing %%}", "{%% import %s as %s %%}", "{%% from %s import a as %s %%}"]) % (F(), F())
+        if k == "condexpr":
+            return "{{ %s if %s else %s }}{{ %s if %s }}{{ %s < %s <= %s }}{{ %s is divisibleby(%s) }}" % tuple(F() for _ in range(10))
+        if k == "scopedblock":
+            if self.in_macro:
+                return "{{ %s }}" % F()
+            self.nblock += 1
+            nb = self.nblock
+            return "{%% for %s in %s %%}{%% block blk%d scoped %%}{{ %s }}%s{{ %s }}{%% endblock %%}{%% endfor %%}" % (
+                F(), F(), nb, F(), inner, F())
+        if k == "trans":
+            v1, v2 = F(), F()
+            return ("{%% trans %s=%s, %s=%s|default(%s) %%}{{ %s }} {{ %s }} {{ %s }}{%% pluralize %s %%}{{ %s }} {{ %s }} {{ %s }}{%% endtrans %%}"
+                    % (v1, F(), v2, F(), F(), v1, F(), F(), v1, F(), v2, F()))
+        raise AssertionError(k)
 
     def names(self, lo, hi):
         n = self.r.randint(lo, hi)
@@ -192,6 +285,8 @@ class TGen:
                 kinds += ["do"]
                 if self.in_loop:
                     kinds += ["loopctl"]
+        if d > 0 and r.random() < 0.25:
+            return self.distinct_stmt(d - 1)
         k = r.choice(kinds)
         if k == "text":
             return self.text()
